@@ -6,6 +6,18 @@ package main
 // out: dec=err | dec=ok blk=<span> hdr=<span> tx=<n>|B<span> W<span> M<span> O<span>,...|... h=<ok|bad:..>
 // op:  enc <kind> <era> <description> <hex>      kind = blk | hdr | body | wit | out
 // out: dec=err | enc=ok | enc=bad:<first failing component>
+// op:  tx <era> <description> <hex of a standalone transaction>   (ledger.NewTransactionFromCbor)
+// out: dec=err | dec=ok tx=<span>|B<span> W<span> M<span|-> O<span>,... h=<ok|bad> enc=<ok|bad>
+// op:  body <era> <description> <hex of a standalone transaction body>  (ledger.NewTransactionBodyFromCbor)
+// out: dec=err | dec=ok body=<span> O<span>,... h=<ok|bad>
+// op:  reuse <kind> <era> <description> <hexA> <hexB>    kind = hdr | blk | tx | body
+//      decode A with the library constructor, observe Cbor()/Hash() (fills the caches), then
+//      decode B INTO THE SAME OBJECT (cbor.Decode(B, obj)) and observe again
+// out: dec=err | dec=ok A:h=<ok|bad> B:err | dec=ok A:h=<ok|bad> B:st=<ok|!len> h=<ok|bad>
+//      st = the stored bytes are exactly B (no stale tail, no stale prefix); h = the identifier
+//      is Blake2b-256 of the stored bytes of the LAST decode
+// op:  hdr <era> <description> <hex of a standalone block header>  (ledger.NewBlockHeaderFromCbor)
+// out: dec=err | dec=ok hdr=<span> h=<ok|bad> enc=<ok|bad>
 //
 // A <span> is "o+l" when the component's stored bytes (Cbor()) are exactly
 // data[o:o+l], where [o,o+l) is the component's span found by the harness' own
@@ -20,6 +32,7 @@ import (
 	"fmt"
 	"reflect"
 	"strings"
+	"time"
 
 	"github.com/blinklabs-io/gouroboros/cbor"
 	"github.com/blinklabs-io/gouroboros/ledger"
@@ -28,7 +41,8 @@ import (
 )
 
 func init() {
-	register(&Prop{ID: "C01", Gen: genC01, Run: runC01})
+	// generous per-op deadline: verdicts must not depend on machine load
+	register(&Prop{ID: "C01", Gen: genC01, Run: runC01, Timeout: 3 * time.Minute})
 }
 
 func genC01(r *Rand, n int, tier string, emit func(string)) {
@@ -36,7 +50,11 @@ func genC01(r *Rand, n int, tier string, emit func(string)) {
 	r2 := NewRand(r.U64() ^ 0xC01)
 	kinds := []string{"blk", "hdr", "body", "wit", "out"}
 	i := 0
-	genC07(r2, n, tier, func(op string) {
+	nStandalone := n / 4
+	g10bGenStandalone(r2, nStandalone, emit)
+	nReuse := n / 6
+	g10bGenReuse(r2, nReuse, emit)
+	genC07(r2, n-nStandalone-nReuse, tier, func(op string) {
 		i++
 		if i%3 == 0 && strings.HasPrefix(op, "blk ") {
 			emit("enc " + kinds[(i/3)%5] + " " + op[4:])
@@ -106,6 +124,12 @@ func fieldPtr(obj any, name string) any {
 
 func runC01(op string) string {
 	f := strings.Fields(op)
+	if len(f) == 6 && f[0] == "reuse" {
+		return g10bRunReuse(f)
+	}
+	if len(f) == 4 && (f[0] == "tx" || f[0] == "hdr" || f[0] == "body") {
+		return g10bRunStandalone(f)
+	}
 	encKind := ""
 	if len(f) == 5 && f[0] == "enc" {
 		encKind = f[1]
@@ -204,4 +228,434 @@ func runC01(op string) string {
 	}
 	fmt.Fprintf(&sb, " h=%s", h)
 	return sb.String()
+}
+
+var g10bTxType = map[string]uint{
+	"byron": 0, "shelley": 1, "allegra": 2, "mary": 3, "alonzo": 4, "babbage": 5, "conway": 6, "dijkstra": 7,
+}
+
+// g10bTxEnvelope builds the standalone encoding of transaction i of a block tree.
+func g10bTxEnvelope(era string, root *bnode, i int) *bnode {
+	null := &bnode{major: 7, payload: []byte{0xf6}}
+	switch era {
+	case "byron":
+		return root.kid(1).kid(0).kid(i)
+	case "dijkstra":
+		return root.kid(1).kid(1).kid(i)
+	}
+	body, wit := root.kid(1).kid(i), root.kid(2).kid(i)
+	if body == nil || wit == nil {
+		return nil
+	}
+	aux := root.kid(3).mapGet(uint64(i))
+	if aux == nil {
+		aux = null
+	}
+	switch era {
+	case "shelley", "allegra", "mary":
+		return &bnode{major: 4, kids: []*bnode{body, wit, aux}}
+	}
+	return &bnode{major: 4, kids: []*bnode{body, wit, {major: 7, payload: []byte{0xf5}}, aux}}
+}
+
+func g10bGenStandalone(r *Rand, n int, emit func(string)) {
+	fx, err := fixtures()
+	if err != nil {
+		return
+	}
+	for c := 0; c < n; c++ {
+		f := fx[r.Intn(len(fx))]
+		root, err := parseCborAll(f.data)
+		if err != nil {
+			continue
+		}
+		var node *bnode
+		kind := "tx"
+		if r.Chance(1, 4) {
+			kind = "hdr"
+			node = root.kid(0)
+		} else if f.era != "byron" && r.Chance(1, 3) {
+			// standalone transaction body (Byron has no body decoder)
+			kind = "body"
+			var bodies *bnode
+			if f.era == "dijkstra" {
+				if t := root.kid(1).kid(1); t != nil && len(t.kids) > 0 {
+					bodies = &bnode{major: 4}
+					for _, tx := range t.kids {
+						bodies.kids = append(bodies.kids, tx.kid(0))
+					}
+				}
+			} else {
+				bodies = root.kid(1)
+			}
+			if bodies == nil || len(bodies.kids) == 0 {
+				continue
+			}
+			node = bodies.kids[r.Intn(len(bodies.kids))]
+		} else {
+			ntx := 0
+			switch f.era {
+			case "byron":
+				ntx = len(root.kid(1).kid(0).kids)
+			case "dijkstra":
+				if t := root.kid(1).kid(1); t != nil {
+					ntx = len(t.kids)
+				}
+			default:
+				ntx = len(root.kid(1).kids)
+			}
+			if ntx == 0 {
+				continue
+			}
+			node = g10bTxEnvelope(f.era, root, r.Intn(ntx))
+		}
+		if node == nil {
+			continue
+		}
+		var desc []string
+		switch r.Intn(4) {
+		case 0:
+		case 1:
+			form := c07Forms[r.Intn(5)]
+			node.setForm(form)
+			desc = append(desc, "top:"+form)
+		default:
+			depth := Pick(r, 1, 2, 3, 4, 6)
+			den := Pick(r, 1, 2, 4)
+			for _, c := range collect(node, depth, isContainer) {
+				if r.Chance(1, den) {
+					form := c07Forms[r.Intn(6)]
+					c.n.setForm(form)
+					if len(desc) < 8 {
+						desc = append(desc, c.path+":"+form)
+					}
+				}
+			}
+			desc = append(desc, fmt.Sprintf("many(d%d,1/%d)", depth, den))
+		}
+		d := strings.Join(desc, ",")
+		if d == "" {
+			d = "orig"
+		}
+		emit(fmt.Sprintf("%s %s %s %s", kind, f.era, d, hexs(node.bytes())))
+	}
+}
+
+func g10bRunStandalone(f []string) string {
+	era := f[1]
+	data, ok := unhex(f[3])
+	if !ok {
+		return "bad-op"
+	}
+	root, perr := parseCborAll(data)
+	if perr != nil {
+		return "dec=err"
+	}
+	okbad := func(b bool) string {
+		if b {
+			return "ok"
+		}
+		return "bad"
+	}
+	if f[0] == "hdr" {
+		bt, ok := eraBlockType[era]
+		if !ok {
+			return "bad-op"
+		}
+		hdr, err := ledger.NewBlockHeaderFromCbor(bt, data)
+		if err != nil {
+			return "dec=err"
+		}
+		pre := hdr.Cbor()
+		if era == "byron" {
+			pre = append([]byte{0x82, 0x01}, pre...)
+		}
+		return fmt.Sprintf("dec=ok hdr=%s h=%s enc=%s", spanOrBad(data, root, hdr.Cbor()),
+			okbad(hdr.Hash() == sum256(pre)), okbad(encEq(hdr, data)))
+	}
+	tt, ok := g10bTxType[era]
+	if !ok {
+		return "bad-op"
+	}
+	if f[0] == "body" {
+		body, err := ledger.NewTransactionBodyFromCbor(tt, data)
+		if err != nil {
+			return "dec=err"
+		}
+		var sb strings.Builder
+		fmt.Fprintf(&sb, "dec=ok body=%s O", spanOrBad(data, root, body.Cbor()))
+		var on []*bnode
+		if o := root.mapGet(1); o != nil {
+			on = o.kids
+		}
+		outs := body.Outputs()
+		if len(outs) != len(on) {
+			fmt.Fprintf(&sb, "!n%d", len(outs))
+		} else {
+			for j, o := range outs {
+				if j > 0 {
+					sb.WriteByte(',')
+				}
+				sb.WriteString(spanOrBad(data, on[j], o.Cbor()))
+			}
+		}
+		fmt.Fprintf(&sb, " h=%s", okbad(body.Id() == sum256(data)))
+		return sb.String()
+	}
+	tx, err := ledger.NewTransactionFromCbor(tt, data)
+	if err != nil {
+		return "dec=err"
+	}
+	bn, wn := root.kid(0), root.kid(1)
+	var an *bnode
+	var on []*bnode
+	switch era {
+	case "byron":
+		if o := bn.kid(1); o != nil {
+			on = o.kids
+		}
+	default:
+		an = root.kid(len(root.kids) - 1)
+		if era != "dijkstra" && len(root.kids) < 3 {
+			an = nil
+		}
+		if an != nil && an.major == 7 {
+			an = nil
+		}
+		if o := bn.mapGet(1); o != nil {
+			on = o.kids
+		}
+	}
+	var sb strings.Builder
+	body, _ := fieldCbor(tx, "Body")
+	wit, okw := fieldCbor(tx, "WitnessSet")
+	if !okw {
+		wit, _ = fieldCbor(tx, "twitCbor")
+	}
+	fmt.Fprintf(&sb, "dec=ok tx=%s|B%s W%s", spanOrBad(data, root, tx.Cbor()), spanOrBad(data, bn, body), spanOrBad(data, wn, wit))
+	var raw []byte
+	if aux := tx.AuxiliaryData(); aux != nil {
+		raw = aux.Cbor()
+	}
+	switch {
+	case an == nil && len(raw) == 0:
+		sb.WriteString(" M-")
+	case an == nil:
+		fmt.Fprintf(&sb, " M!%d", len(raw))
+	default:
+		fmt.Fprintf(&sb, " M%s", spanOrBad(data, an, raw))
+	}
+	sb.WriteString(" O")
+	outs := tx.Outputs()
+	if len(outs) != len(on) {
+		fmt.Fprintf(&sb, "!n%d", len(outs))
+	} else {
+		for j, o := range outs {
+			if j > 0 {
+				sb.WriteByte(',')
+			}
+			sb.WriteString(spanOrBad(data, on[j], o.Cbor()))
+		}
+	}
+	hok := body != nil && tx.Hash() == sum256(body) && tx.Id() == sum256(body)
+	fmt.Fprintf(&sb, " h=%s enc=%s", okbad(hok), okbad(encEq(tx, data)))
+	return sb.String()
+}
+
+// g10bReencode applies a random form vector to a copy of the item.
+func g10bReencode(r *Rand, item []byte) ([]byte, string) {
+	n, err := parseCborAll(item)
+	if err != nil {
+		return item, "orig"
+	}
+	switch r.Intn(3) {
+	case 0:
+		return item, "orig"
+	case 1:
+		form := c07Forms[r.Intn(5)]
+		n.setForm(form)
+		return n.bytes(), "top:" + form
+	}
+	depth := Pick(r, 1, 2, 3, 5)
+	for _, c := range collect(n, depth, isContainer) {
+		if r.Chance(1, 2) {
+			c.n.setForm(c07Forms[r.Intn(6)])
+		}
+	}
+	return n.bytes(), fmt.Sprintf("many(d%d)", depth)
+}
+
+// header-compatible eras (same Go header struct)
+var g10bHdrFamily = map[string][]string{
+	"byron": {"byron"}, "shelley": {"shelley", "allegra", "mary", "alonzo"}, "allegra": {"shelley", "allegra", "mary", "alonzo"},
+	"mary": {"shelley", "allegra", "mary", "alonzo"}, "alonzo": {"shelley", "allegra", "mary", "alonzo"},
+	"babbage": {"babbage", "conway"}, "conway": {"babbage", "conway"}, "dijkstra": {"dijkstra", "babbage", "conway"},
+}
+
+// g10bGenReuse: object-reuse sequences (decode A, observe, decode B into the same object, observe).
+func g10bGenReuse(r *Rand, n int, emit func(string)) {
+	fx, err := fixtures()
+	if err != nil {
+		return
+	}
+	byEra := map[string][]*bnode{}
+	for _, f := range fx {
+		if root, err := parseCborAll(f.data); err == nil {
+			byEra[f.era] = append(byEra[f.era], root)
+		}
+	}
+	txCount := func(era string, root *bnode) int {
+		switch era {
+		case "byron":
+			return len(root.kid(1).kid(0).kids)
+		case "dijkstra":
+			if t := root.kid(1).kid(1); t != nil {
+				return len(t.kids)
+			}
+			return 0
+		}
+		return len(root.kid(1).kids)
+	}
+	for c := 0; c < n; c++ {
+		era := g10bEras[r.Intn(len(g10bEras))]
+		roots := byEra[era]
+		if len(roots) == 0 {
+			continue
+		}
+		rootA := roots[r.Intn(len(roots))]
+		kind := Pick(r, "hdr", "hdr", "blk", "tx", "tx", "body")
+		var a, b []byte
+		switch kind {
+		case "hdr":
+			a = rootA.kid(0).bytes()
+			fam := g10bHdrFamily[era]
+			other := byEra[fam[r.Intn(len(fam))]]
+			if len(other) == 0 {
+				continue
+			}
+			b = other[r.Intn(len(other))].kid(0).bytes()
+		case "blk":
+			a = rootA.bytes()
+			b = roots[r.Intn(len(roots))].bytes()
+		case "tx", "body":
+			nt := txCount(era, rootA)
+			if nt == 0 || (kind == "body" && era == "byron") {
+				continue
+			}
+			pick := func() []byte {
+				env := g10bTxEnvelope(era, rootA, r.Intn(nt))
+				if env == nil {
+					return nil
+				}
+				if kind == "body" {
+					return env.kid(0).bytes()
+				}
+				return env.bytes()
+			}
+			a, b = pick(), pick()
+			if a == nil || b == nil {
+				continue
+			}
+		}
+		var da, db string
+		a, da = g10bReencode(r, a)
+		b, db = g10bReencode(r, b)
+		// make sure both "B longer" and "B shorter than A" occur
+		if r.Chance(1, 3) && len(b) > len(a) {
+			a, b, da, db = b, a, db, da
+		}
+		emit(fmt.Sprintf("reuse %s %s %s/%s %s %s", kind, era, da, db, hexs(a), hexs(b)))
+	}
+}
+
+type g10bHasher interface{ Hash() common.Blake2b256 }
+type g10bIder interface{ Id() common.Blake2b256 }
+
+func g10bRunReuse(f []string) string {
+	kind, era := f[1], f[2]
+	a, ok1 := unhex(f[4])
+	b, ok2 := unhex(f[5])
+	if !ok1 || !ok2 {
+		return "bad-op"
+	}
+	var obj any
+	var err error
+	switch kind {
+	case "hdr":
+		obj, err = ledger.NewBlockHeaderFromCbor(eraBlockType[era], a)
+	case "blk":
+		obj, err = ledger.NewBlockFromCbor(eraBlockType[era], a, common.VerifyConfig{SkipBodyHashValidation: true})
+	case "tx":
+		obj, err = ledger.NewTransactionFromCbor(g10bTxType[era], a)
+	case "body":
+		obj, err = ledger.NewTransactionBodyFromCbor(g10bTxType[era], a)
+	default:
+		return "bad-op"
+	}
+	if err != nil || obj == nil {
+		return "dec=err"
+	}
+	// the bytes the identifier of this object covers
+	idBytes := func() []byte {
+		switch kind {
+		case "hdr":
+			c := obj.(cborer).Cbor()
+			if era == "byron" {
+				return append([]byte{0x82, 0x01}, c...)
+			}
+			return c
+		case "blk":
+			c := obj.(common.Block).Header().Cbor()
+			if era == "byron" {
+				return append([]byte{0x82, 0x01}, c...)
+			}
+			return c
+		case "tx":
+			body, _ := fieldCbor(obj, "Body")
+			return body
+		}
+		return obj.(cborer).Cbor()
+	}
+	ident := func() common.Blake2b256 {
+		if h, ok := obj.(g10bHasher); ok {
+			return h.Hash()
+		}
+		return obj.(g10bIder).Id()
+	}
+	okbad := func(b bool) string {
+		if b {
+			return "ok"
+		}
+		return "bad"
+	}
+	ha := ident() == sum256(idBytes())
+	if kind == "tx" || kind == "blk" {
+		// fill the caches of the nested objects too
+		if t, ok := obj.(common.Transaction); ok {
+			_ = t.Id()
+		}
+		if bl, ok := obj.(common.Block); ok {
+			for _, t := range bl.Transactions() {
+				_ = t.Hash()
+			}
+		}
+	}
+	if _, err := cbor.Decode(b, obj); err != nil {
+		return fmt.Sprintf("dec=ok A:h=%s B:err", okbad(ha))
+	}
+	stored := obj.(cborer).Cbor()
+	st := "ok"
+	if !bytes.Equal(stored, b) {
+		st = fmt.Sprintf("!%d", len(stored))
+	}
+	hb := ident() == sum256(idBytes())
+	if bl, ok := obj.(common.Block); ok && hb {
+		// every transaction of the re-decoded block must identify by ITS body bytes
+		for _, t := range bl.Transactions() {
+			if body, ok := fieldCbor(t, "Body"); ok && body != nil && t.Hash() != sum256(body) {
+				hb = false
+			}
+		}
+	}
+	return fmt.Sprintf("dec=ok A:h=%s B:st=%s h=%s", okbad(ha), st, okbad(hb))
 }
